@@ -168,8 +168,11 @@ CLAIMS['C13'] = dict(
          '-> Dependency.get_prerequisite -> set_conditional_expr denotes the user\'s boolean expression is compared '
          'natively for every and/or tree with <= 3 (quick) / 4 (thorough) atoms drawn from a name-collision pool '
          '(prefix/suffix/substring names, names with -+%@, custom outputs, offsets, negative integer points, '
-         'time-zoned datetime points), after every single satisfy_me along a random order. Level "other" because '
-         'the property as a whole rests on the bounded part.',
+         'time-zoned datetime points), after every single satisfy_me along a random order. A second bounded '
+         'enumeration (every sequence of <= 3 operations on the real class over <= 3 keys, all expressions and '
+         'initial states) accompanies the proved part only to supply a failing input when a changed body makes a '
+         'quantified obligation undecidable for the solver; it is not counted. Level "other" because the property '
+         'as a whole rests on the bounded part.',
     note=_PROOF_NOTE + 'Assumed: A-MONO (trigger expressions contain and/or only, so more satisfied keys never turn '
          'the expression false; instantiated between every two CE terms on a path); False is modelled as the empty '
          'text; PrereqTuple.coerce is the identity on text keys; precondition wf (an expression comes with recorded '
